@@ -537,42 +537,36 @@ def conc_cases(rng, quick):
                 "b": [[o[0], o[1], o[2] + 10, o[3]] if o[0] == "P" else o for o in b]}
                for s in setups[1:] for a in doubles for b in doubles]
         # every schedule of a case costs one pair of threads: the quick tier samples the pairs
-        cases += rng.sample(one, 12) if quick else one
-        cases += rng.sample(two, 2 if quick else 15)
+        cases += rng.sample(one, 8) if quick else one
+        cases += rng.sample(two, 1 if quick else 15)
     return cases
 
 
 def generate(rng, tier, mult):
     quick = tier == "quick"
     cases = witnesses()
-    d_mem = 5 if quick else 6
-    # --- non-shared complete trees
-    for mx in (1, 2, 3):
-        keys = 4 if mx == 3 else 3
-        cases += tree_cases(_lru(mx), keys, [0.0], [], d_mem - (1 if keys == 4 else 0))
-        cases += tree_cases(_hyb(mx), keys, [0.0, 1.0], [], 4 if quick else 5)
-    cases += tree_cases(_hyb(2, 1.0, 0.0), 3, [0.0, 2.5], [], 3 if quick else 4)
-    cases += tree_cases(_hyb(2, 0.3, 0.7), 3, [1.0, 3.0], [], 3 if quick else 4)
-    cases += tree_cases(SIMPLE, 3, [0.0], [], 4 if quick else 5)
-    d_disk = 3 if quick else 4
-    for mx in (1, 2, 3):
-        keys = 4 if mx == 3 else 3
-        cases += tree_cases(_disk(mx, True, 2), keys, [0.0], [1, mx], d_disk - (1 if keys == 4 else 0))
-        cases += tree_cases(_disk(mx, False, 1), 3, [0.0], [1], d_disk)
-    cases += tree_cases(_disk(2, True, 1), 3, [0.0], [None, 1], d_disk)
-    cases += tree_cases(_disk(None, True, 1), 3, [0.0], [1], d_disk)
-    # --- shared=True: same trees, smaller depth (every proxy call is a round trip to the manager process)
-    d_sh = 3 if quick else 4
-    for mx in (1, 2):
-        cases += tree_cases(_lru(mx, True), 3, [0.0], [], d_sh)
-        cases += tree_cases(_hyb(mx, shared=True), 3, [0.0, 1.0], [], d_sh - 1)
-    cases += tree_cases(_lru(3, True), 4, [0.0], [], d_sh - 1)
-    cases += tree_cases(_hyb(3, shared=True), 4, [0.0, 1.0], [], d_sh - 1)
-    cases += tree_cases(_disk(2, True, 1, True), 3, [0.0], [1], 2 if quick else 3)
+    # --- non-shared complete trees: (configuration, keys, durations, reopen sizes, depth quick, depth thorough)
+    plan = [
+        (_lru(1), 3, [0.0], [], 4, 6), (_lru(2), 3, [0.0], [], 5, 6), (_lru(3), 4, [0.0], [], 4, 5),
+        (_hyb(1), 3, [0.0, 1.0], [], 3, 5), (_hyb(2), 3, [0.0, 1.0], [], 4, 5), (_hyb(3), 4, [0.0, 1.0], [], 3, 4),
+        (_hyb(2, 1.0, 0.0), 3, [0.0, 2.5], [], 3, 4), (_hyb(2, 0.3, 0.7), 3, [1.0, 3.0], [], 3, 4),
+        (SIMPLE, 3, [0.0], [], 4, 5),
+        (_disk(1, True, 2), 3, [0.0], [1], 3, 4), (_disk(2, True, 2), 3, [0.0], [1], 3, 4),
+        (_disk(3, True, 2), 4, [0.0], [1, 3], 2, 3), (_disk(2, False, 1), 3, [0.0], [], 3, 4),
+        (_disk(2, True, 1), 3, [0.0], [None, 1], 2, 4), (_disk(None, True, 1), 3, [0.0], [1], 2, 3),
+        (_disk(1, False, 1), 3, [0.0], [1], 2, 4), (_disk(3, False, 1), 4, [0.0], [2], 2, 3),
+        # shared=True: same trees, smaller depth (every proxy call is a round trip to the manager process)
+        (_lru(1, True), 3, [0.0], [], 3, 4), (_lru(2, True), 3, [0.0], [], 3, 4), (_lru(3, True), 4, [0.0], [], 2, 3),
+        (_hyb(1, shared=True), 3, [0.0, 1.0], [], 2, 3), (_hyb(2, shared=True), 3, [0.0, 1.0], [], 2, 3),
+        (_hyb(3, shared=True), 4, [0.0, 1.0], [], 2, 3),
+        (_disk(2, True, 1, True), 3, [0.0], [1], 2, 3),
+    ]
+    for cfg, keys, durs, reopens, dq, dt in plan:
+        cases += tree_cases(cfg, keys, durs, reopens, dq if quick else dt)
     # --- two concurrent clients (locked operations put/get), all schedules
     cases += conc_cases(rng, quick)
     # --- random longer sequences
-    n = (60 if quick else 600) * mult
+    n = (40 if quick else 500) * mult
     for _ in range(n):
         mx = rng.choice([1, 1, 2, 2, 3])
         keys = rng.choice([3, 4])
